@@ -866,6 +866,19 @@ def invariance(rec, case, rng, pp, cls):
     variants(f_h0, ref_h0, f'hae(hae0 = reference height {h0 - float(case.get("ref_hae", 0.0)):+.0f} m, fixed iteration count)', IDENT, 'invariance-hae')
     hh = ecf_to_geod(ref_h0)[2]
     rec.check(case, 'hae(explicit hae0): returned points are at the requested height (m)', hh[numpy.isfinite(hh)] - h0, ALARM_M, 'surface')
+    # an explicit request for the ellipsoid itself: hae0 = 0 in the spellings a caller uses (a default filled in by truthiness
+    # would replace it by the reference height); the result must be at height 0 and on the pixels' contours
+    if abs(float(case.get('ref_hae', 0.0))) > 5.0:
+        for z in (0, 0.0, numpy.float64(0.0)):
+            Z = pp.image_to_ground_hae(pix, s, hae0=z, tolerance=1e-6, max_iterations=25)
+            hz = ecf_to_geod(Z)[2]
+            rec.check(case, f'hae(explicit hae0 = {z!r}): returned points are at height 0 (m)', hz[numpy.isfinite(hz)], ALARM_M, 'surface',
+                      {'hae0': repr(z), 'reference height': case.get('ref_hae')})
+        surface_and_contour(rec, case, 'hae(hae0 = 0)', Z, pix, None, ('hae', 0.0), extra={'hae0': 0.0})
+        Zd = pp.image_to_ground(pix, s, projection_type='HAE', hae0=0)
+        rec.check(case, 'image_to_ground(HAE, hae0=0) vs image_to_ground_hae(hae0=0)', Zd - pp.image_to_ground_hae(pix, s, hae0=0), IDENT, 'dispatch')
+        rec.evals += 5 * N
+        rec.classes.add(cls + ('hae0-zero',))
     G = lambda x, **k: pp.ground_to_image(x, s, tolerance=1e-12, max_iterations=8, **k)[0]
     g_ref = G(H)
 
@@ -960,8 +973,28 @@ def wrappers(rec, case, rng, pp, cls):
                           'msg': f'{case["name"]}: after define_coa_projection history {[(i, bool(o)) for i, o in ops]} (parameter set index, override) the structure\'s '
                                  f'project_image_to_ground agrees with the module function for parameter set(s) {used}, expected set {want}',
                           'meta': meta_json(case['meta']), 'adj_pool': pool, 'history': ops})
-    rec.evals += 10 * N
+    # a copy of a structure that already holds a stored projection, edited afterwards (what create_subset_structure does): the copy's
+    # projection must follow the copy's OWN metadata - pixel (r, c) of the copy with FirstRow + dr / FirstCol + dc is parent pixel (r + dr, c + dc)
+    if not hasattr(s, 'ImageData'):       # SIDD structures carry no sub-image offsets
+        rec.evals += 10 * N
+        rec.classes.add(cls + ('wrappers',))
+        return
+    sp = s.copy()
+    sp.define_coa_projection()
+    sp.project_image_to_ground(pix[:2], projection_type='PLANE')
+    dr, dc = rng.randint(1, 40), rng.randint(1, 40)
+    sc = sp.copy()
+    sc.ImageData.FirstRow = int(sp.ImageData.FirstRow) + dr
+    sc.ImageData.FirstCol = int(sp.ImageData.FirstCol) + dc
+    got_c = sc.project_image_to_ground(pix - numpy.array([dr, dc], dtype='float64'), projection_type='PLANE')
+    rec.check(case, f'copy of a structure with a stored projection, FirstRow/FirstCol moved by ({dr}, {dc}): its pixels project like the parent pixels they are (m)',
+              got_c - P, ALARM_M, 'copy-then-edit', {'shift': [dr, dc]})
+    got_m = pp.image_to_ground_plane(pix - numpy.array([dr, dc], dtype='float64'), sc)
+    rec.check(case, 'the same through the module function (m)', got_m - P, ALARM_M, 'copy-then-edit', {'shift': [dr, dc]})
+    rec.check(case, 'the copied-from structure is unaffected by the edit of its copy (m)', sp.project_image_to_ground(pix, projection_type='PLANE') - P, IDENT, 'copy-then-edit')
+    rec.evals += 13 * N
     rec.classes.add(cls + ('wrappers',))
+    rec.classes.add(('copy-then-edit',))
     rec.classes.add(('coa-history', len(ops), any(o for _, o in ops), all(o for _, o in ops)))
 
 
